@@ -751,6 +751,28 @@ def pending_inputs(fns):
     return rows
 
 
+def header_invalid_state():
+    """Functions for which capi/include/yara_x.h documents YRX_INVALID_STATE: the comment of the function
+    itself says "this function returns `YRX_INVALID_STATE`", or another comment says that a call to it
+    "will fail with [`YRX_RESULT::YRX_INVALID_STATE`]"."""
+    hdr = src("capi/include/yara_x.h")
+    fns = []
+    for m in re.finditer(r"((?:^//[^\n]*\n)+)(?:[A-Za-z_][A-Za-z_0-9 \*]*?)\b(yrx_[a-z_0-9]+)\s*\(", hdr, re.M):
+        comment = re.sub(r"\s*\n//\s?", " ", m.group(1))
+        if re.search(r"this function returns\s+`?(?:YRX_RESULT::)?YRX_INVALID_STATE", comment):
+            fns.append(m.group(2))
+        for r in re.finditer(r"call to \[?`?(yrx_[a-z_0-9]+)`?\]?\s+will\s+fail\s+with\s+\[?`?(?:YRX_RESULT::)?YRX_INVALID_STATE", comment):
+            fns.append(r.group(1))
+    out = []
+    for f in fns:
+        if f not in out: out.append(f)
+    if not out:
+        raise TranslateError("capi/include/yara_x.h: no function documented as returning YRX_INVALID_STATE (comment shape changed?)")
+    if "YRX_INVALID_STATE" not in hdr or not re.search(r"multi-block\s*//\s*mode has been used as a standard scanner|multi-block\s+mode has been used as a standard scanner", re.sub(r"\n\s*//", " ", hdr)):
+        raise TranslateError("capi/include/yara_x.h: the description of YRX_INVALID_STATE changed")
+    return out
+
+
 def enum_variants(text, name, what):
     body, _, _ = block_after(strip_comments(text), r"pub\s+enum\s+" + name + r"\b[^{]*\{", what)
     vs = re.findall(r"^\s*([A-Za-z_][A-Za-z0-9_]*)\s*(?:\([^)]*\))?\s*,", body, re.M)
@@ -896,6 +918,9 @@ def main():
     L.append("(* the helpers pass (ident, value) on: (helper, Rust method, first argument, second argument) *)")
     L.append("Definition global_helpers : list (string * string * string * string) :=\n  [" + "; ".join(f"({q(a)}, {q(b)}, {q(c)}, {q(d)})" for a, b, c, d in helpers) + "].")
     L.append("")
+    L.append("(* functions documented in capi/include/yara_x.h as returning YRX_INVALID_STATE (block scanning mode);")
+    L.append("   the enum's own comment adds: a scanner in multi-block mode used as a standard scanner *)")
+    L.append("Definition header_invalid_state : list string := [" + "; ".join(q(f) for f in header_invalid_state()) + "].")
     L.append("(* pending per-scan module data (YRX_SCANNER.module_data): operations each exported function performs on it *)")
     L.append("Definition module_data_ops : list (string * list string) :=\n  [" + ";\n   ".join(
         f"({q(n)}, [" + "; ".join(q(o) for o in ops) + "])" for n, ops in pending_inputs(fns0)) + "].")
